@@ -7,12 +7,14 @@ set -e
 cd "$(dirname "$0")/.."
 N=${1:-400}
 TOOLS=$(ls -d "$HOME"/.rustup/toolchains/nightly-x86_64-unknown-linux-gnu/lib/rustlib/x86_64-unknown-linux-gnu/bin)
-export CARGO_NET_OFFLINE=true RUSTFLAGS="-C instrument-coverage"
+# (instrumented build scripts and proc macros write profiles where they run: send them to the scratch directory,
+# never into /repo)
+export CARGO_NET_OFFLINE=true RUSTFLAGS="-C instrument-coverage" LLVM_PROFILE_FILE="$PWD/work/cov/build-%p-%m.profraw"
 mkdir -p work/cov; rm -f work/cov/*.profraw
 for c in core_harness macro_harness bevy_harness; do
   (cd harness/$c && CARGO_TARGET_DIR="$PWD/target-cov" cargo +nightly build --offline --quiet 2>/dev/null)
 done
-unset RUSTFLAGS
+unset RUSTFLAGS; rm -f work/cov/build-*.profraw
 run() { # crate suite n
   bin=harness/$1/target-cov/debug/$1
   $bin gen $2 1 $3 > work/cov/$2.ops
